@@ -488,6 +488,7 @@ for _k in ("StartRoutine", "StopRoutine", "RequestRoutineResults"):
     RESP_EXPOSE[_k] = (_r_routine, {"routine_identifier", "routine_status_record", "routine_control_type"})
 
 IGNORED_ATTRS = {"trigger_request"}
+UNCOVERED_ATTRS: dict[str, set[str]] = {}
 
 
 def expose_request(obj: Any) -> tuple[str, dict[str, Any]]:
@@ -508,8 +509,9 @@ def expose_response(obj: Any) -> tuple[str, dict[str, Any]]:
     public = {a for a in vars(obj) if not a.startswith("_")} - IGNORED_ATTRS
     extra = public - attrs
     if extra:
-        raise Machinery(f"binding: {type(obj).__name__} exposes attribute(s) {sorted(extra)} the layout binding "
-                        f"does not cover")
+        # attributes the ISO layout does not know (derived / convenience values) are not judged; they are
+        # counted so that the evidence shows the binding no longer covers everything the class exposes
+        UNCOVERED_ATTRS.setdefault(type(obj).__name__, set()).update(extra)
     try:
         return k, fn(obj)
     except AttributeError as e:
